@@ -189,6 +189,8 @@ ScheduleExact == (runs = 1) => Len(deposited) = Cardinality(EligibleSteps)
 QuirkScope == /\ ("offgrid-double-count" \in quirk => GridFreq > HillFreq \/ runs > 1)
               /\ ("offgrid-buffer" \in quirk => UseGrids /\ ~Periodic)
               /\ (("restart-offgrid-hills-lost" \in quirk \/ "restart-nogrid-hills-lost" \in quirk) => runs > 1)
-              /\ ((Wide /\ runs = 1 /\ GridFreq = HillFreq) => quirk = {})
+              \* (with a hard lower boundary the buffer test ignores that side: a value presented below it - which a hard
+              \*  boundary is meant to exclude - can meet the buffer deviation even for wide hills)
+              /\ ((Wide /\ ~HardLower /\ runs = 1 /\ GridFreq = HillFreq) => quirk = {})
               /\ ((Periodic /\ runs = 1 /\ GridFreq = HillFreq) => quirk = {})
 =============================================================================
